@@ -123,10 +123,10 @@ def show_faults(faults) -> list:
     return [f if isinstance(f, int) else f"{f[0]} (BaseException)" for f in faults]
 
 
-# `_rollback` of cashews/wrapper/transaction.py as the model reads it: "head" = `except Exception` only, a BaseException leaves
-# the loop (the backends after it are not rolled back); "all" = the loop of proposed_fixes/C16_rollback_stops_at_baseexception.diff
-# (every backend is rolled back, the BaseException is re-raised at the end).  C16_RB is for validating that patch only.
-RB_LOOP = os.environ.get("C16_RB", "head")
+# the loop of `Transaction._rollback` the model is asked to run: "all" = as in /repo since 12f0cbb (D36: every backend is rolled
+# back whatever fails, a BaseException is re-raised at the end).  "head" = the OLD loop (`except Exception` only: a BaseException
+# left the loop) - only through the environment variable C16_RB, for looking at a tree in which 12f0cbb is reverted.
+RB_LOOP = os.environ.get("C16_RB", "all")
 
 
 class HolderAbort(Exception):
@@ -134,7 +134,6 @@ class HolderAbort(Exception):
 
 
 HOLDER_TIMEOUT_S = 10.0          # lease of a holder's lock: far longer than any victim waits
-
 
 class Recorder:
     def __init__(self):
@@ -569,19 +568,8 @@ def parse_answer(ans: str) -> dict | None:
     }
 
 
-def rollback_left_early(obs, own=None) -> bool:
-    """did an `unlock` (of another lock entry than `own`) end with a BaseException while `_rollback` is /repo's loop?  Then
-    `Transaction._rollback` (`except Exception`) was left and the backends after it were never unlocked: the disjunct
-    `RollbackLeftEarly` of theorem locks_released_or_self_failed (new defect N1, see proposed_fixes/)."""
-    if RB_LOOP != "head":
-        return False
-    return any(tuple(obs["unlocks_ev"][i]) != own for i in obs["failed_base"] if i in obs["unlocks_ev"])
-
-
-def oracle(prog, obs, full=False) -> list[str]:
-    """the property statement evaluated on what the implementation did; returns the clauses it contradicts.
-    `full`: the FULL statement about locks (own unlock failed, nothing else excuses a lock left behind); by default the
-    statement that is true of /repo (theorem locks_released_or_self_failed: ... or `_rollback` was left by a BaseException)."""
+def oracle(prog, obs) -> list[str]:
+    """the property statement evaluated on what the implementation did; returns the clauses it contradicts"""
     bad = []
     if obs["ctx"] != "none":
         bad.append("task-still-inside-transaction")
@@ -592,12 +580,8 @@ def oracle(prog, obs, full=False) -> list[str]:
         b, lk, owner, dl = l.split(".")
         if owner != "m":
             continue
-        own = (int(b), int(lk))
-        if own not in failed_unlocks:
-            if full or not rollback_left_early(obs, own):
-                bad.append("lock-left-although-its-unlock-did-not-fail")
-            elif dl == "?":
-                bad.append("left-lock-does-not-lapse-at-the-timeout")
+        if (int(b), int(lk)) not in failed_unlocks:
+            bad.append("lock-left-although-its-unlock-did-not-fail")
         elif dl == "?":
             bad.append("left-lock-does-not-lapse-at-the-timeout")
     if obs["body_raised"] and obs["after"] != obs["untouched"]:
